@@ -96,6 +96,6 @@ def modelUpdateToJson (u : ModelUpdate) : Json :=
 
 def opErrToString : OpErr → String
   | .constraint => "constraint violation" | .referential => "referential integrity violation"
-  | .domain => "domain error" | .notSupported => "not supported" | .timedOut => "timed out" | .other => "other"
+  | .domain => "domain error" | .range => "range error" | .notSupported => "not supported" | .timedOut => "timed out" | .other => "other"
 
 end Ovsdb
